@@ -156,6 +156,20 @@ def poly_add1(p):
     return {k: v for k, v in out.items() if v}
 
 
+def part_loop(f, n_name):
+    """The loop that enumerates the parts of a multipart plan over the part count n:
+    `for k in range(1, n + 1)` (k is the part number, k - 1 the index) or `for i in range(n)`
+    (i is the index, i + 1 the number).  -> (loop, index expression text, number expression text) or None"""
+    for l in own_nodes(f.node):
+        if isinstance(l, ast.For) and isinstance(l.target, ast.Name) and isinstance(l.iter, ast.Call) and norm(l.iter.func) == 'range':
+            a = l.iter.args
+            if len(a) == 2 and norm(a[0]) == '1' and equal(a[1], f'{n_name} + 1'):
+                return l, f'{l.target.id} - 1', l.target.id
+            if (len(a) == 1 and norm(a[0]) == n_name) or (len(a) == 2 and norm(a[0]) == '0' and norm(a[1]) == n_name):
+                return l, l.target.id, f'{l.target.id} + 1'
+    return None
+
+
 def _np_names(f):
     return q.names_defined_by(f, lambda v: 'ceil(' in norm(v) or 'calculate_num_parts(' in norm(v) or 'floor(' in norm(v) or '//' in norm(v))
 
@@ -241,14 +255,16 @@ def tiling_identities(ctx):
     psn = norm(adj[0]._parent.targets[0]) if adj and isinstance(adj[0]._parent, ast.Assign) else None
     npd = [v for nm in npn[:1] for st, v in q.local_defs(f, nm) if isinstance(v, ast.AST)]
     ctx.ob(f, 'num_parts = ceil(size / float(part_size))', len(npd) == 1 and psn is not None and _num_parts_expr_ok(npd[0], 'transfer_future.meta.size', psn), f'{[norm(v) for v in npd]}')
-    loopv = [norm(l.target) for l in own_nodes(f.node) if isinstance(l, ast.For) and npn and norm(l.iter) == f'range(1, {npn[0]} + 1)']
-    ctx.ob(f, 'for part_number in range(1, num_parts + 1)', len(loopv) == 1, 'every part 1..n must be copied')
+    pl = part_loop(f, npn[0]) if npn else None
+    ctx.ob(f, 'for part_number in range(1, num_parts + 1)', pl is not None, 'every part 1..n must be copied')
     for fn in ('calculate_range_parameter', '_get_transfer_size'):
         cs = [c for c in own_calls(f.node) if (dotted(c.func) or '').split('.')[-1] == fn]
         names = {'calculate_range_parameter': ('part_size', 'part_index', 'num_parts', 'total_size'),
                  '_get_transfer_size': ('part_size', 'part_index', 'num_parts', 'total_transfer_size')}[fn]
-        got = [norm(q.argn(cs[0], nm, k)) for k, nm in enumerate(names)] if len(cs) == 1 else None
-        ok = len(cs) == 1 and bool(loopv) and bool(npn) and got == [psn, f'{loopv[0]} - 1', npn[0], 'transfer_future.meta.size']
+        gota = [q.argn(cs[0], nm, k) for k, nm in enumerate(names)] if len(cs) == 1 else None
+        got = [norm(a) for a in gota] if gota else None
+        ok = len(cs) == 1 and pl is not None and bool(npn) and None not in gota and got[0] == psn and equal(gota[1], pl[1]) \
+            and got[2] == npn[0] and got[3] == 'transfer_future.meta.size' and q.in_loop(cs[0]) is pl[0]
         ctx.ob(f, f'{fn}(part_size, part_number - 1, num_parts, size)', ok, f'found {got}')
     g = ctx.func('copies.CopySubmissionTask._get_transfer_size')
     ps, pi, n, T = g.bound_params()
